@@ -105,7 +105,7 @@ def correspondence(rng, thorough):
                 out = np.asarray(sim.simulate(tuple(vol))).reshape(-1)
             res = " ".join(C.rat_str(float(v)) for v in out)
         except Exception as e:  # noqa: BLE001
-            res = "error " + C.EXC_KIND.get(type(e).__name__, type(e).__name__)
+            res = C.exc_kind(e)
         lines.append(f"m:sim1d {C.rat_str(scale)} {N} {nmol} " + " ".join(toks))
         impl.append(res)
         stats["sim1d"] += 1
